@@ -16,7 +16,8 @@ META = {
 GROUP = "tensor"
 REQ = "From RV Require Import Prelude.\nFrom Tensor Require Import Overlap.\nOpen Scope N_scope."
 THEOREMS = ["C08_no_overlap_injective", "C08_release_mode_injective",
-            "C08_derived_layouts_accepted", "C08_accepted_if_some_order_steps", "C08_nonvacuous"]
+            "C08_derived_layouts_accepted", "C08_accepted_if_some_order_steps", "C08_nonvacuous",
+            "C08_oracle_counterexample_is_genuine"]
 
 
 def main(ctx):
